@@ -210,24 +210,24 @@ PENDING_REASON = "check not built yet in this revision (planned, see DESIGN.md s
 ADDED = {
     "C01": "Later additions: name sets containing one another, empty summary, long return description, wide and nested types, single-member and numeric Literals, string defaults with quotes and full stops, a sweep of every description length across the wrap column, and blocks re-run in child interpreters under DOCTRANS_LINE_LENGTH / DOCTRANS_TAB. Rounds 6-7: interfaces without parameters, partial return entries, the length sweep with a neighbour parameter before/after the swept one.",
     "C02": "Later additions: a partially-documented family (pairs and alternating triples), emitter keyword arguments (function_type, class_bases, decorator_list), the wrap-length sweep and the environment variants of C01, nested types. Rounds 6-7: optional lists of scalars.",
-    "C03": "Later additions: `_internal` is carried along the chain and is part of the state key; the extended type/default alphabet.",
-    "C04": "Later additions: numeric and single-member Literals; for every Literal member its command-line text must convert to the member and be accepted by choices.",
+    "C03": "Later additions: `_internal` is carried along the chain and is part of the state key; the extended type/default alphabet. Round 8: two hops written with emit_default_doc=True, taken as first hop of every search.",
+    "C04": "Later additions: numeric and single-member Literals; for every Literal member its command-line text must convert to the member and be accepted by choices. Round 8: the class, pydantic, function and argparse emitters also with emit_default_doc=True.",
     "C05": "Later additions: single-member Literal, Optional[Literal], equal primary-key names. Rounds 6-7: keyword-like column names.",
-    "C06": "Later additions: Literal members with regex metacharacters, hyphens and spaces; single-member Literal; Optional[Literal]. Rounds 6-7: the return entry (all return kinds), string defaults whose text reads as another literal.",
-    "C07": "Later additions: file-level layouts (CRLF, tabs, no final newline, single-quoted and raw docstrings, semicolon bodies), one-line definitions, decorated kinds, positional-only parameters with defaults, partially and reversely documented functions, and modules written by the library's own emitters. Rounds 6-7: return annotations with brackets of their own on headers without annotated parameters, bodies that are only a docstring, docstrings that become empty.",
+    "C06": "Later additions: Literal members with regex metacharacters, hyphens and spaces; single-member Literal; Optional[Literal]. Rounds 6-7: the return entry (all return kinds), string defaults whose text reads as another literal. Round 8: return entries with truthy and falsy defaults.",
+    "C07": "Later additions: file-level layouts (CRLF, tabs, no final newline, single-quoted and raw docstrings, semicolon bodies), one-line definitions, decorated kinds, positional-only parameters with defaults, partially and reversely documented functions, and modules written by the library's own emitters. Rounds 6-7: return annotations with brackets of their own on headers without annotated parameters, bodies that are only a docstring, docstrings that become empty. Round 8: a blank line or a comment under every header, a blank line after every docstring.",
     "C08": "Later additions: long return description, wide type, nested types; a history is closed as soon as the whole live object (including `_internal`) repeats. Rounds 6-7: descriptions that begin with a trigger word.",
-    "C09": "Later additions: CRLF/tab/form-feed tokens, all sequences of <= 4 (thorough 5) lines over a 20-line alphabet of realistic source lines, and a parse-use-parse-again clause through doctrans.",
-    "C10": "Later additions: 25 operations including twin inputs (values equal across types), two operations on one source text, names the parser does not see; sharded by (seed, first operation); an operation that only raises is reported as a harness defect. Rounds 6-7: a prose-type operation and two SQLAlchemy-model operations that share column types.",
-    "C11": "Later additions: a 24-token prose alphabet through every emitter and re-parse, the C07 program alphabet through doctrans, and the emitter/doctrans families again under very narrow wrap widths and a tab character (child interpreters). Rounds 6-7: every Google/NumPy argument section of <= 4 (thorough 5) whole-line units over a ten-unit alphabet.",
+    "C09": "Later additions: CRLF/tab/form-feed tokens, all sequences of <= 4 (thorough 5) lines over a 20-line alphabet of realistic source lines, and a parse-use-parse-again clause through doctrans. Round 8: a block that already fails is cut short, so that a defect which slows every later call is still reported.",
+    "C10": "Later additions: 25 operations including twin inputs (values equal across types), two operations on one source text, names the parser does not see; sharded by (seed, first operation); an operation that only raises is reported as a harness defect. Rounds 6-7: a prose-type operation and two SQLAlchemy-model operations that share column types. Round 8: an exmod operation on a module exporting names that differ only in case.",
+    "C11": "Later additions: a 24-token prose alphabet through every emitter and re-parse, the C07 program alphabet through doctrans, and the emitter/doctrans families again under very narrow wrap widths and a tab character (child interpreters). Rounds 6-7: every Google/NumPy argument section of <= 4 (thorough 5) whole-line units over a ten-unit alphabet. Round 8: programs with more defaults than parameters the parser keeps.",
     "C12": "Later additions: near-miss targets (one default, one trailing parameter more, last parameter missing, Literal one member short), truths without per-parameter descriptions and with a return value, targets in another docstring style, --no-word-wrap; thorough: every truth of 1-2 parameters over nine kinds. Rounds 6-7: four statement orders of an argparse truth (reference read from the standard order), a description longer than the wrap column, a clause on line breaks inside a parsed description.",
-    "C13": "Later additions: a second input module in which every selected name is shadowed by an earlier node of another kind; method-parameter inputs. Rounds 6-7: a template naming the placeholder twice; every call also after every other call in the same process on the same input file (thorough: after every pair).",
-    "C14": "Later additions: 16 128 hand-built JSON-schema documents, functions and classes parsed as live objects, 51 legal but unusually laid out definitions, 174 hand-written SQLAlchemy models. Rounds 6-7: 16 return-section layouts and 21 parameter-entry layouts per style (named returns, types on their own line, subscripted types with the optional marker).",
+    "C13": "Later additions: a second input module in which every selected name is shadowed by an earlier node of another kind; method-parameter inputs. Rounds 6-7: a template naming the placeholder twice; every call also after every other call in the same process on the same input file (thorough: after every pair). Round 8: one call with two pairs (class attribute and parameter, both orders, every pair of inputs); the selected location's default must be its own, the input's, or none.",
+    "C14": "Later additions: 16 128 hand-built JSON-schema documents, functions and classes parsed as live objects, 51 legal but unusually laid out definitions, 174 hand-written SQLAlchemy models. Rounds 6-7: 16 return-section layouts and 21 parameter-entry layouts per style (named returns, types on their own line, subscripted types with the optional marker). Round 8: positional-only headers in the partially documented family; the C11 whole-line unit family.",
     "C15": "Later additions: parameters-only / return-only sections, headers whose prose mentions section words, a whitespace-only first line, the default-flag function route; thorough: indentation 2 and 12, three separators. Rounds 6-7: blank lines that carry the docstring's indentation.",
     "C16": "Later additions: equal primary-key names across models, two applications sharing a routes file; thorough: all name/primary-key/CRUD pairs. Rounds 6-7: all CRUD letter orders; a model's operations must name a schema with that model's columns.",
-    "C17": "Later additions: the route/OpenAPI entry points with YAML payloads (python-specific tags), expression contexts around payloads, an un-annotated default slot. Rounds 6-7: five type-guess sentence shapes, live objects with text annotations, inspection of the module table and of module execution after every case.",
+    "C17": "Later additions: the route/OpenAPI entry points with YAML payloads (python-specific tags), expression contexts around payloads, an un-annotated default slot. Rounds 6-7: five type-guess sentence shapes, live objects with text annotations, inspection of the module table and of module execution after every case. Round 8: nine argparse arguments whose type= names a deserialiser or evaluator and whose default= is its payload, through four entry points.",
     "C18": "Later additions: a module's observation is its __all__, whether each of those names is bound, and every bound public name; an unbound __all__ name is reported unconditionally.",
-    "C19": "Later additions: input mapping given as a directory and as module.SYMBOL (live objects), --no-word-wrap / --decorator / --emit-call, an imports file with a __future__ import; thorough: 1-5 symbols. Rounds 6-7: declarative SQLAlchemy models with five base-class lists through --parse infer (differential against --parse sqlalchemy).",
-    "C20": "Later additions: output directory populated by an earlier real run, the exposed sub-package named in neither/one/both lists, --target-module-name / --no-word-wrap / --extra-module, a re-export-through-sub-package layout with typing attributes. Rounds 6-7: exposing and filtering a module two levels down.",
+    "C19": "Later additions: input mapping given as a directory and as module.SYMBOL (live objects), --no-word-wrap / --decorator / --emit-call, an imports file with a __future__ import; thorough: 1-5 symbols. Rounds 6-7: declarative SQLAlchemy models with five base-class lists through --parse infer (differential against --parse sqlalchemy). Round 8: JSON-schema outputs are checked for their $id names and properties.",
+    "C20": "Later additions: output directory populated by an earlier real run, the exposed sub-package named in neither/one/both lists, --target-module-name / --no-word-wrap / --extra-module, a re-export-through-sub-package layout with typing attributes. Rounds 6-7: exposing and filtering a module two levels down. Round 8: packages whose classes are declarative SQLAlchemy models with a table name of their own.",
 }
 
 
